@@ -288,8 +288,10 @@ class DataGen:
             roll = r.random()
             if k == "copy" and roll < 0.12 and sh.nodes.get(src) == "g":
                 dst = Shadow.join(src, self.key())  # into its own subtree
-            elif roll < 0.8:
+            elif roll < 0.68:
                 dst = self.fresh_path(sh)
+            elif roll < 0.8 and sh.grave:
+                dst = r.choice(sh.grave)  # a path that was deleted earlier
             else:
                 dst = self.existing(sh) or self.fresh_path(sh)  # onto existing
             if k == "move" and (dst == src or dst.startswith(src.rstrip("/") + "/")):
